@@ -284,6 +284,15 @@ def run(ctx: Ctx) -> None:
     ctx.ob("R11.5", "lexer:LexerTokenStream.get_doxygen_after|rest of the buffer re-queued", "new_tokbuf.extend(tokbuf)" in txt_ga and "self.tokbuf = new_tokbuf" in txt_ga,
            msg="the trailing scan does not put the unscanned rest of the buffer back", node=ga, mod=lex, nontrivial=False)
 
+    # a plain comment inside the line changes nothing: the scan goes on to the doc comment that follows on the same line
+    for cname, v in sorted(by.items()):
+        ttype, value = REPRESENTATIVES[cname]
+        if cname.startswith("plain") and not value.endswith("\n"):
+            bad = [w for w in v if w.outcome != "continue"]
+            ctx.ob("R11.5", f"lexer:LexerTokenStream.get_doxygen_after|{cname} does not stop the scan", not bad,
+                   msg=f"the trailing scan stops at a {cname} (tests at lines {bad[0].trail if bad else ()}): in 'int x; /* note */ ///< doc' the documentation after the plain comment is no longer found for x and falls to the next declaration",
+                   node=ga, mod=lex)
+
     # ---------------------------------------------------------------- R11.7
     ctx.rule("R11.7", "the trailing scan crosses a line end only through a documentation comment", minimum=2)
     for cname, v in sorted(by.items()):
